@@ -1,4 +1,6 @@
 pub mod c03;
 pub mod c04;
+pub mod c10;
 pub mod c11;
+pub mod c14;
 pub mod c19;
